@@ -10,7 +10,7 @@ from .xt import veq
 VMODES = ["ramp", "extreme", "minimal"]
 PY_FORMS = ["py"]
 ND = ["nd", "ndF", "ndS", "ndD", "ndR"]
-XOBJ = ["xobj-same", "xobj-other", "xobj-ctx", "xobj-kind", "xobj-nested", "xobj-slack"]
+XOBJ = ["xobj-same", "xobj-other", "xobj-ctx", "xobj-kind", "xobj-nested", "xobj-slack", "ref-same", "ref-foreign", "xobj-view", "xobj-nested-view"]
 CAP = ["cap"]
 
 
@@ -71,11 +71,14 @@ def forms_for(t, v, want):
         elif f in ND:
             if has_sa and xt.nd_ok(t, v, f) or (f == "nd" and not xt.py_expressible(t, v)):
                 out.append(f)
-        elif f == "xobj-nested":
+        elif f in ("xobj-nested", "xobj-nested-view"):
             if t[0] in ("St", "A") and (t[0] == "St" and any(ft[0] in ("St", "A", "Str") for _, ft in t[1]) or t[0] == "A" and t[1][0] in ("St", "A", "Str")) and xt.py_expressible(t, v):
                 out.append(f)
         elif f == "xobj-slack":
             if has_str and xt.py_expressible(t, v):
+                out.append(f)
+        elif f in ("ref-same", "ref-foreign"):
+            if xt.has_refs(t) and t[0] != "U" and xt.py_expressible(t, v):
                 out.append(f)
         elif f in XOBJ:
             out.append(f)
@@ -94,6 +97,22 @@ def base_arg(t, v):
 
 class Outcome:
     __slots__ = ("t", "v", "expect", "form", "pname", "pl", "obj", "buf", "before", "after", "error", "log", "src", "size_model")
+
+
+def nested_view_arg(t, v):
+    """immediate compound children supplied as the nested VIEWS of a complete object living in another buffer
+    (what an enclosing copy hands to its parts); strings and scalars as plain data"""
+    whole = xt.construct(t, xt.to_py(t, v), _buffer=place.traced("np", 0))
+    if t[0] == "St":
+        return {n: (getattr(whole, n) if ft[0] in ("St", "A") else xt.to_py(ft, v[n])) for n, ft in t[1]}
+    shape = v["shape"]
+
+    def rec(prefix, d):
+        if d == len(shape):
+            return whole[prefix if len(prefix) > 1 else prefix[0]] if t[1][0] in ("St", "A") else xt.to_py(t[1], v["items"][prefix])
+        return [rec(prefix + (i,), d + 1) for i in range(shape[d])]
+
+    return rec((), 0)
 
 
 def nested_xobj_arg(t, v):
@@ -146,6 +165,29 @@ def slack_source(t, v, **kw):
     return src
 
 
+def with_ref_objects(t, v, buf):
+    """plain data in which every (non-null) reference leaf is an xobject that already lives in `buf`:
+    a reference to an object of the holder's own buffer aliases it, one to a foreign object copies it"""
+    k = t[0]
+    if k in ("S", "Str"):
+        return v
+    if k == "St":
+        return {n: with_ref_objects(ft, v[n], buf) for n, ft in t[1]}
+    if k == "A":
+        shape = v["shape"]
+
+        def rec(prefix, d):
+            if d == len(shape):
+                return with_ref_objects(t[1], v["items"][prefix], buf)
+            return [rec(prefix + (i,), d + 1) for i in range(shape[d])]
+
+        return rec((), 0)
+    if k == "R":
+        return None if v is None else xt.construct(t[1], xt.to_py(t[1], v), _buffer=buf)
+    if k == "U":
+        return None if v is None else xt.construct(t[1][v[0]], xt.to_py(t[1][v[0]], v[1]), _buffer=buf)
+
+
 def execute(t, v, form, pname, salt=0):
     """Run one construction.  Never raises for library failures: they are recorded in .error"""
     o = Outcome()
@@ -165,11 +207,19 @@ def execute(t, v, form, pname, salt=0):
         o.size_model = None
     elif form == "xobj-nested":
         arg = nested_xobj_arg(t, v)
+    elif form == "xobj-nested-view":
+        arg = nested_view_arg(t, v)
     else:
         arg = None  # built below, needs the placement
     pl = place.place(pname, size_for_place, salt)
     o.pl = pl
-    if form in XOBJ and form != "xobj-nested":
+    if form in ("ref-same", "ref-foreign"):
+        tb = pl.buf if (form == "ref-same" and pl.buf is not None) else place.traced("np", 0)
+        arg = with_ref_objects(t, v, tb)
+        o.size_model = None if form == "ref-same" else o.size_model
+        if pl.buf is not None:
+            pl.buf.log.clear()
+    elif form in XOBJ and form not in ("xobj-nested", "xobj-nested-view"):
         if form == "xobj-same":
             srcbuf = pl.buf if pl.buf is not None else None
             kw = dict(_buffer=srcbuf) if srcbuf is not None else dict(_context=place.ctx(0))
@@ -177,7 +227,7 @@ def execute(t, v, form, pname, salt=0):
             kw = dict(_buffer=place.traced("np", 0))
         elif form == "xobj-kind":
             kw = dict(_buffer=place.traced("ba", 0))
-        elif form == "xobj-slack":
+        elif form in ("xobj-slack", "xobj-view"):
             kw = dict(_buffer=place.traced("np", 0))
         else:
             kw = dict(_buffer=place.traced("np", 0, context=place.ctx(1)))
@@ -186,6 +236,8 @@ def execute(t, v, form, pname, salt=0):
             o.size_model = None  # anything between the minimal layout and the source's extent is legitimate
         else:
             o.src = xt.construct(t, base_arg(t, v), **kw)
+        if form == "xobj-view" and t[0] != "U":
+            o.src = xt.build(t)._from_buffer(o.src._buffer, o.src._offset)  # a view rebuilt from (buffer, offset) as source
         arg = o.src
         if pl.buf is not None:
             pl.buf.log.clear()
